@@ -138,7 +138,7 @@ def validate(res, tr, keep):
 
 
 def run(tier):
-    res = Result("C05", tier, "model_checking")
+    res = Result("C05", tier, "exploration")
     res.assumptions = ["elapsed-time fields are removed before comparing: time=\"..\" attributes of JUnit output and the `time` fields of `test -o json|yaml`",
                        "each command is repeated %d times in fresh processes (fresh hash seeds) under different TZ / LANG / HOME / COLUMNS / RUST_LOG settings and working directories (absolute paths), and %d times inside one process with other evaluations in between" % (RUNS, RUNS),
                        "generated rules do not call now()"]
@@ -153,6 +153,17 @@ def run(tier):
     tr = os.path.join(WORK, "trace_C05.ndjson")
     keep = record(res, tier, tr)
     total = validate(res, tr, keep)
+    # distinct commands whose output is not empty (by the digest of the first repetition)
+    first = set()
+    for l in open(tr):
+        j = json.loads(l)
+        k = keep.get(j["i"])
+        if k and (k["outputs"][0]["stdout"].strip() or k["outputs"][0]["stderr"].strip()):
+            first.add((j["cmd"], j["mode"], j["runs"][0]["out"], j["runs"][0]["err"]))
+    res.cov["distinct_nontrivial"] = len(first)
+    for i in (1, 14, 17):
+        if i in keep:
+            res.sample({"command": keep[i]["args"], "repetitions": [{"exit": o["exit"], "stdout_head": o["stdout"][:200]} for o in keep[i]["outputs"][:2]]})
     os.remove(tr)
     # 3. within one process
     scratch = os.path.join(WORK, "c05_scratch")
